@@ -15,6 +15,11 @@ RULES: Dict[str, str] = {
     'R-POSTLEX-RESET': 'sa.rules.effects:run_postlex_reset',
     'R-INDENT-PAIRING': 'sa.rules.indenter:run_pairing',
     'R-SPLIT-TOTAL': 'sa.rules.indenter:run_split_total',
+    'R-SERIAL-AGREE': 'sa.rules.serial:run_agree',
+    'R-SERIAL-NORM': 'sa.rules.serial:run_norm',
+    'R-SERIAL-NS': 'sa.rules.serial:run_ns',
+    'R-LOAD-REAPPLY': 'sa.rules.serial:run_load_reapply',
+    'R-STANDALONE-CLOSURE': 'sa.rules.standalone:run',
 }
 
 PROPERTIES: Dict[str, dict] = {}
